@@ -155,7 +155,7 @@ file::file() :
 
 int file::close()
 {
-	if(!d->fb.in_memory() && !removed_) {
+	if(d->fb.created() && !removed_) {
 		int r = d->fb.close();
 		if(file_temporary_ && !d->fb.name().empty()) {
 			booster::nowide::remove(d->fb.name().c_str());
